@@ -225,11 +225,18 @@ def main(argv=None):
     if k['id'] not in known_hits and bres is not None:
       print(f"NOTE: known finding {k['id']} was not reproduced by this run (stale entry?)")
   shown = 0
+  # obligations that were discharged on the baseline tree and no longer are: named next to the
+  # replayed input (the input comes from the bounded harness of the same property)
+  regressed = [f"{u['function']}::{u['obligation']}" for u in unproved
+               if u.get('in_baseline') and u.get('obligation')]
   for what, payload, suffix in violations:
     if shown < 5:
+      payload = dict(payload, failed_obligations=regressed)
       path = write_replay(prop, shown, payload)
       print(f'VIOLATION property={prop} replay={path}{suffix}')
       print('   ', str(what)[:600])
+      if regressed and shown == 0:
+        print('    failed obligations (discharged on the baseline tree): ' + ', '.join(regressed[:6]))
     shown += 1
     exit_code = 1
   for u in unproved:
